@@ -127,7 +127,7 @@ func (f *muxStream) Context() context.Context     { return f.ctx }
 func (f *muxStream) SendMsg(m interface{}) error  { return errors.New("unused") }
 func (f *muxStream) RecvMsg(m interface{}) error  { return errors.New("unused") }
 
-var muxSubscribed int64
+var muxSubscribed, muxCacheRead int64
 
 func cmdMuxRun(args []string) int {
 	fs := flag.NewFlagSet("muxrun", flag.ExitOnError)
@@ -156,6 +156,9 @@ func cmdMuxRun(args []string) int {
 	verifhook.Hook = func(point string, a, b uint64) {
 		if point == "watch.subscribed" {
 			atomic.AddInt64(&muxSubscribed, 1)
+		}
+		if point == "watch.cacheread" {
+			atomic.AddInt64(&muxCacheRead, 1)
 		}
 		if inner != nil {
 			inner(point, a, b)
@@ -310,6 +313,7 @@ func muxOne(eng *kb.Engine, b muxBehaviour, idBase int64) ([]gate.Event, bool, b
 			st.log(gate.Event{"e": "MCreate", "p": s.P, "from": from, "zero": s.S == 0})
 			st.mu.Unlock()
 			sub0 := atomic.LoadInt64(&muxSubscribed)
+			cr0 := atomic.LoadInt64(&muxCacheRead)
 			pfx := []byte(env.Prefix + muxPfx[s.P-1])
 			st.reqs <- &etcdserverpb.WatchRequest{RequestUnion: &etcdserverpb.WatchRequest_CreateRequest{CreateRequest: &etcdserverpb.WatchCreateRequest{
 				Key: pfx, RangeEnd: backend.PrefixEnd(pfx), StartRevision: start, PrevKv: true}}}
@@ -326,7 +330,10 @@ func muxOne(eng *kb.Engine, b muxBehaviour, idBase int64) ([]gate.Event, bool, b
 				wait(func() bool {
 					st.mu.Lock()
 					defer st.mu.Unlock()
-					return atomic.LoadInt64(&muxSubscribed) > sub0 || st.canceled[id] > 0
+					// (a watch from a revision also reads the event cache after it has subscribed: a write that falls between the two
+					//  meets a cache that does not hold its event yet, and the backend may refuse the watch -- legitimate, but not
+					//  what this script is about)
+					return (atomic.LoadInt64(&muxSubscribed) > sub0 && (start == 0 || atomic.LoadInt64(&muxCacheRead) > cr0)) || st.canceled[id] > 0
 				}, 5*time.Second)
 			}
 			settle()
